@@ -352,6 +352,15 @@ def _load_base(base: str) -> Any:
     from odxtools.loadfile import load_pdx_file
     if base == "kitchen":
         return og.load(kitchen_sink_docs())
+    if base in ("crossref_layer", "crossref_container"):
+        # a reference into another container that names its target document (no IMPORT-REF)
+        esd = og.Layer("ECU-SHARED-DATA", "ESD", "ESD")
+        esd.dops.append(og.dop("ESD.u8", "shared_u8", og.dct_standard("A_UINT32", 8)))
+        bv = og.Layer("BASE-VARIANT", "BV", "BV")
+        how = ("ESD", "LAYER") if base == "crossref_layer" else ("DLC2", "CONTAINER")
+        bv.requests.append(og.request("BV.RQ", "RQ", [og.p_const8("sid", 0x22), og.p_value("v", "ESD.u8", docref=how[0], doctype=how[1])]))
+        bv.diag_comms.append(og.service("BV.DC", "svc", "BV.RQ"))
+        return og.load([og.container("DLC1", "DLC1", [bv]), og.container("DLC2", "DLC2", [esd])])
     if base == "kitchen_renamed":          # the same layers in containers of other names
         return og.load(kitchen_sink_docs("OTHER1", "OTHER2"))
     return load_pdx_file(str(REPO / "examples" / base))
@@ -514,7 +523,7 @@ def check(tier: str, replay: Optional[str] = None) -> int:
                 v.fail("content_depends_on_order_or_entry", {"machine": "Pdx", "entry": "across processes", "order": [], "documents": k})
     # ---- part B
     bases = ["kitchen", "somersault.pdx"] + (["somersault_modified.pdx"] if tier == "thorough" else [])
-    jobs: List[Dict[str, Any]] = [{"base": b} for b in bases]
+    jobs: List[Dict[str, Any]] = [{"base": b} for b in bases + ["crossref_layer", "crossref_container"]]
     jobs += [{"base": "kitchen", "second_base": "somersault.pdx"}, {"base": "somersault.pdx", "second_base": "kitchen"},
              {"base": "kitchen", "second_base": "kitchen_renamed"}, {"base": "kitchen_renamed", "second_base": "kitchen"}]
     site_jobs = enumerate_sites(bases)
